@@ -66,6 +66,10 @@ EXTRA = [(a,) for a in range(len(F.NAMES))] + [(a, b) for a in range(len(F.NAMES
 
 
 def _norm_case(c):
+    return _norm_case2(c) + (bool(c.get("tmp_sibling", False)),)
+
+
+def _norm_case2(c):
     init = [(tuple(p), n) for p, n in c["init"]]
     ops = []
     for o in c["ops"]:
@@ -77,8 +81,24 @@ def _norm_case(c):
     return init, ops
 
 
-def _json_case(init, ops):
-    return {"init": [[list(p), n] for p, n in init], "ops": [[list(x) if isinstance(x, tuple) else x for x in o] for o in ops]}
+def _json_case(init, ops, tmp_sibling=False):
+    return {"tmp_sibling": tmp_sibling, "init": [[list(p), n] for p, n in init], "ops": [[list(x) if isinstance(x, tuple) else x for x in o] for o in ops]}
+
+
+def _prefix_sibling_touched(rec) -> bool:
+    """Did an operation name a pre-existing path while a path created in isolation was a plain string
+    prefix of its name without being a parent (or the other way round)?  Only a coverage counter."""
+    pre = {p for p, _ in rec["before"]}
+    for op, _r, cr, _t in rec["steps"]:
+        args = [a for a in op[1:3] if isinstance(a, tuple)]
+        for a in args:
+            if a in pre or any(a[:k] in pre for k in range(1, len(a))):
+                sa = "/".join(F.NAMES[c] for c in a)
+                for c in cr:
+                    sc = "/".join(F.NAMES[x] for x in c)
+                    if sa != sc and sa.startswith(sc) and a[:len(c)] != c:
+                        return True
+    return False
 
 
 def _worker(args):
@@ -89,8 +109,8 @@ def _worker(args):
     # clean-up of stale records below a path that meanwhile became a file logs a warning per path
     logging.getLogger("pynguin.utils.fs_isolation").setLevel(logging.ERROR)
     out = []
-    for k, (init, ops) in enumerate(chunk):
-        out.append(F.run_case(os.path.join(root, f"sb{k}"), init, ops))
+    for k, (init, ops, sib) in enumerate(chunk):
+        out.append(F.run_case(os.path.join(root, f"sb{k}"), init, ops, sib))
     return out
 
 
@@ -108,12 +128,12 @@ def run_all(ctx, cases):
     return out
 
 
-def shrink(ctx, init, ops, cls):
+def shrink(ctx, init, ops, cls, sib=False):
     scratch = str(ctx.mkscratch())
 
     def fails(i2, o2):
         try:
-            r = F.oracle(F.run_case(os.path.join(scratch, "shrink"), i2, o2))
+            r = F.oracle(F.run_case(os.path.join(scratch, "shrink"), i2, o2, sib))
         except Exception:  # noqa: BLE001
             return False
         return r is not None and r[0] == cls
@@ -142,16 +162,19 @@ def run(ctx: vlib.Ctx):
         ctx.coqchk()
     n_seq = 360 if ctx.quick else 5000
     corpus = json.loads((vlib.VERIF / "corpus" / "C29.json").read_text())
-    cases = [_norm_case(c) for c in corpus]
+    # every corpus case runs in both sandbox layouts (plain / sandbox root = "<private temp dir>_sb")
+    cases = [_norm_case2(c) + (sib,) for c in corpus for sib in (False, True)]
     for _ in range(n_seq):
         init = F.gen_init(ctx.rng)
-        cases.append((init, F.gen_ops(ctx.rng, init, ctx.rng.choice([2, 4, 6, 8, 12]))))
+        cases.append((init, F.gen_ops(ctx.rng, init, ctx.rng.choice([2, 4, 6, 8, 12])), ctx.rng.random() < 0.35))
     recs = run_all(ctx, cases)
     # S: the property on the real filesystem
     n_or = 0
     seen_sig = set()
-    for (init, ops), rec in zip(cases, recs):
-        ctx.case_seen((init, ops), nontrivial=len(rec["steps"]) > 0)
+    for (init, ops, sib), rec in zip(cases, recs):
+        ctx.case_seen((init, ops, sib), nontrivial=len(rec["steps"]) > 0)
+        ctx.count("layout:" + ("root-is-tmpdir-plus-suffix" if sib else "plain"))
+        ctx.count("prefix-sibling-touched", int(_prefix_sibling_touched(rec)))
         ctx.count("skipped-outside-model", rec["skipped"])
         for op, r, cr, _t in rec["steps"]:
             ctx.count("op:" + F.op_kind(op))
@@ -163,17 +186,17 @@ def run(ctx: vlib.Ctx):
             n_or += 1
             if n_or > 40 and not ctx.quick:
                 continue
-            i2, o2 = shrink(ctx, init, [s[0] for s in rec["steps"]], o[0])
+            i2, o2 = shrink(ctx, init, [s[0] for s in rec["steps"]], o[0], sib)
             sig = o[0] + ":" + "+".join(sorted({F.op_kind(x) for x in o2}))
             if sig in seen_sig:
                 continue
             seen_sig.add(sig)
-            rec2 = F.run_case(os.path.join(str(ctx.mkscratch()), "final"), i2, o2)
+            rec2 = F.run_case(os.path.join(str(ctx.mkscratch()), "final"), i2, o2, sib)
             msg = (F.oracle(rec2) or o)[1]
-            ctx.fail(sig, f"{msg}; operations: {[(x[0], x[-1]) for x in o2]}", _json_case(i2, o2) | {"names": F.NAMES})
+            ctx.fail(sig, f"{msg}; operations: {[(x[0], x[-1]) for x in o2]}", _json_case(i2, o2, sib) | {"names": F.NAMES})
     ctx.leg("S", oracle_failures=n_or, sequences=len(cases))
-    k0 = len(corpus)
-    init, ops = cases[k0]
+    k0 = 2 * len(corpus)
+    init, ops, _sib = cases[k0]
     ctx.sample({"init": [[list(p), n] for p, n in init], "ops": [repr(o) for o in ops],
                 "results": [s[1] for s in recs[k0]["steps"]], "created_at_end": [list(p) for p in (recs[k0]["steps"][-1][2] if recs[k0]["steps"] else [])]})
     ctx.cov["rule"] = ("random sequences of 2..12 operations (open r/w/a/x/r+ via builtins.open, io.open, Path.open, os.open, "
@@ -192,7 +215,7 @@ def run(ctx: vlib.Ctx):
             i = usable[bad[0]] if bad else next(j for j in range(len(recs)) if j not in usable)
             ctx.broken("correspondence:C29-model-vs-fs_isolation",
                        "the isolation model (about which the theorems are proved) no longer reproduces FilesystemIsolation",
-                       {"case": _json_case(cases[i][0], [s[0] for s in recs[i]["steps"]]),
+                       {"case": _json_case(cases[i][0], [s[0] for s in recs[i]["steps"]], cases[i][2]),
                         "implementation": [[repr(s[0]), s[1], [list(p) for p in s[2]]] for s in recs[i]["steps"]],
                         "mismatching_sequences": len(bad)})
     else:
@@ -212,8 +235,8 @@ def replay(ctx, path):
     d = json.loads(open(path).read())["replay"]
     if "case" in d:
         d = d["case"]
-    init, ops = _norm_case(d)
-    rec = F.run_case(os.path.join(str(ctx.mkscratch()), "replay"), init, ops)
+    init, ops, sib = _norm_case(d)
+    rec = F.run_case(os.path.join(str(ctx.mkscratch()), "replay"), init, ops, sib)
     print("before:", rec["before"])
     for op, r, cr, t in rec["steps"]:
         print(" ", op, "->", r, "| _created:", cr)
